@@ -814,12 +814,13 @@ def local_cases(draw, budget=14):
 # runner
 
 N_SHARDS = 16
-# measured single-process CPU cost incl. generation (ms per case): stmt ~30, inherit ~13, modules ~30, local ~25
-SIZES = {  # stream -> (quick, thorough) cases per shard; thorough uses larger programs (~1.4x cost per case)
-    "stmt": (350, 3500),
-    "inherit": (400, 4500),
-    "modules": (300, 3000),
-    "local": (450, 4500),
+# measured CPU cost incl. generation on a quiet machine: ~ 15 ms per case over the quick mix (stmt ~ 20, inherit ~ 8,
+# modules ~ 18, local ~ 15), ~ 22 ms with the thorough sizes; 2-3 x that on the saturated machine.
+SIZES = {  # stream -> (quick, thorough) cases per shard: quick ~ 580 CPU-s, thorough ~ 9 000 CPU-s
+    "stmt": (560, 5500),
+    "inherit": (640, 7500),
+    "modules": (480, 4800),
+    "local": (720, 7200),
 }
 
 
